@@ -9,8 +9,7 @@ Sources (cited as `file:line` of /repo):
 * `vm/vm.go:180` `VmImpl.Run` (commit iff the method returned no error; `usedGas := min(used, gasLimit)`).
 * `vm/wasm/wasm_env.go` — `WasmEnv`: nested environments (`CreateSubEnv :281`), `SubBalance :166`, `AddBalance :178`,
   `Burn :58`, `Commit :389` (into the parent; the root writes to the state), `Deploy :371`; `vm/wasm/vm.go:72` `Run`.
-* `blockchain/blockchain.go:1674-1702` the wrapper in `applyTxOnState`; `:1764` `getGasLimit` (shopspring
-  `decimal.Div` = 16 fractional digits, half-up, then truncated by `math.ToInt`); `:1755` `GetGasCost`.
+* `blockchain/blockchain.go:1674-1702` the wrapper in `applyTxOnState`; `:1764` `getGasLimit`; `:1755` `GetGasCost`.
 
 A contract execution is an arbitrary list of environment calls (the contract bodies and the wasm interpreter are
 *traces*, not models) closed by the method's own verdict.  Balances are `Int` on purpose.  Maps that are only read by
@@ -58,6 +57,9 @@ structure Base where
   keys : List SKey := []
   nonce : Addr → Nat := fun _ => 0
   epoch : Addr → Nat := fun _ => 0
+  /-- contracts whose `ContractData.Stake` is a nil `*big.Int` (wasm contracts: `DeployWasmContract` sets no stake).
+  Sums treat it as 0; `MoveToStake` dereferences it (`env.go:366`). -/
+  stakeNil : Addr → Bool := fun _ => false
 
 def stakeOf : Option CData → Int
   | some d => d.stake
@@ -77,6 +79,7 @@ inductive Res
   | done
   | env (id : Nat)
   | code (c : Nat)
+  | nocode
   | burnt (n : Int)
   | bad
   deriving DecidableEq, Repr
@@ -242,6 +245,10 @@ def step (e : EEnv) : ECall → EEnv × Res
   | .mvstake c amt =>
     if e.getBal c < amt then (e, .err) else
     if amt < 0 then (e, .err) else
+    -- `big.NewInt(0).Add(stake, amount)` with a nil stake (no contract at `c`, or a contract without stake) is a nil
+    -- dereference: the call panics (the buffers are discarded, so the debit before it is not kept here)
+    if (e.deployed c).isNone && (e.stakeC c).isNone && ((e.base.con c).isNone || e.base.stakeNil c) then
+      ({ e with dead := true }, .panic) else
     let e1 := e.setBal c (e.getBal c - amt)
     match e1.deployed c with
     | some d => ({ e1 with deployed := upd e1.deployed c (some { d with stake := d.stake + amt }) }, .ok)
@@ -417,7 +424,7 @@ def stepTop (w : WEnv) (c : WCall) : WEnv × Res :=
   | .commit => (w.commitTop, .ok)
   | .deploy code => w.onTop fun f => ({ f with code := upd f.code f.contract (some code) }, .ok)
   | .code a => (w, .code (codeBlob ((top.code a).getD 0)))
-  | .hascode a => (w, .code ((top.code a).getD 0))
+  | .hascode a => (w, match top.code a with | some c => .code c | none => .nocode)
   | .event nameOk =>
     if !nameOk then (w, .panic) else w.onTop fun f => ({ f with events := f.events + 1 }, .ok)
 
@@ -465,8 +472,15 @@ def decDivTrunc (a b : Nat) : Nat :=
 /-- same for a negative numerator `-(a)`: the quotient is rounded away from zero, `big.Int.Quo` truncates -/
 def decDivTruncNeg (a b : Nat) : Int := - (decDivTrunc a b : Int)
 
-/-- `getGasLimit` (`blockchain.go:1764`) -/
+/-- `getGasLimit` (`blockchain.go:1764`, since fix 8023026d): `new(big.Int).Quo(diff, oneGasCost)` — the whole number
+of gas units the remaining fee buys (`Quo` truncates toward zero; `diff < 0` cannot pass validation) -/
 def gasLimit (t : TxIn) : Int :=
+  if t.fpg = 0 then 0 else Int.tdiv ((t.maxFee : Int) - (t.txFee : Int)) (t.fpg : Int)
+
+/-- `getGasLimit` as found before fix 8023026d: `decimal.NewFromBigInt(diff, 0).Div(oneGasCost)` (16 fractional digits,
+half-up) then `math.ToInt` (truncate).  Kept as a flagged variant: `Props/C15.lean` proves it over-grants from
+`2·10¹⁶` per gas unit on. -/
+def gasLimitAsFound (t : TxIn) : Int :=
   if t.fpg = 0 then 0 else
   if t.txFee ≤ t.maxFee then (decDivTrunc (t.maxFee - t.txFee) t.fpg : Nat) else decDivTruncNeg (t.txFee - t.maxFee) t.fpg
 
